@@ -495,7 +495,7 @@ impl Space for DiffRound {
 }
 
 pub fn spaces(env: &Env) -> Vec<Box<dyn Space>> {
-    vec![Box::new(TimeRound::new(env.tier)), Box::new(InstantRound::new(env.tier)), Box::new(DiffRound::new(env.tier)), Box::new(crate::checks::c08::CalendarTies { name: "c07.calendar_increments" })]
+    vec![Box::new(TimeRound::new(env.tier)), Box::new(InstantRound::new(env.tier)), Box::new(DiffRound::new(env.tier)), Box::new(crate::checks::c08::CalendarTies { name: "c07.calendar_increments" }), Box::new(crate::checks::c09::RoundTies { name: "c07.duration_ties", tier: env.tier })]
 }
 
 pub fn run(env: &Env) -> i32 {
